@@ -681,7 +681,13 @@ def run(m: Model, r: Report, tier: str) -> None:
 
     # ---------------------------------------------------------------- R5
     f = m.require_function(f"{SERVICE}.RawPositiveResponse.matches")
-    first = [s_ for s_ in f.node.body if not (isinstance(s_, ast.Expr) and isinstance(s_.value, ast.Constant))][0]
+    # (a local alias such as `service_id = self.service_id` is resolved first)
+    from sa.util import subst_locals as _sl3
+    import copy as _cp3
+    f = _cp3.copy(f)
+    f.node = ast.fix_missing_locations(_sl3(f.node, f.node))
+    first = [s_ for s_ in f.node.body if not (isinstance(s_, ast.Expr) and isinstance(s_.value, ast.Constant))
+             and not (isinstance(s_, ast.Assign) and isinstance(s_.targets[0], ast.Name) and isinstance(s_.value, ast.Attribute))][0]
     ok_first = isinstance(first, ast.If) and isinstance(first.test, ast.Compare) and isinstance(first.test.ops[0], ast.NotEq) and \
         {ast.unparse(first.test.left), ast.unparse(first.test.comparators[0])} == {"self.service_id", "request.service_id"} and \
         isinstance(first.body[0], ast.Return) and ast.unparse(first.body[0].value) == "False"
